@@ -351,8 +351,59 @@ class CFG:
           changed = True
     return dom
 
+  def controlling_conditions(self, node: Node) -> List[Tuple[ast.AST, bool]]:
+    """(condition, polarity) pairs that must hold for `node` to execute in the
+    current iteration: for every test t, if node is reachable only through t's
+    true (false) branch without re-entering t, the condition is required True
+    (False).  And/Or are split into their conjuncts where the polarity allows."""
+    out: List[Tuple[ast.AST, bool]] = []
+    for t in self.nodes:
+      if t.kind != 'test' or t is node:
+        continue
+      ts = [m for m, lab in t.succs if lab == 'T']
+      fs = [m for m, lab in t.succs if lab == 'F']
+      if node not in self.reachable([t]):
+        continue
+      via_t = bool(ts) and (node in ts or node in self.reachable(ts, blocked=[t], include_starts=True))
+      via_f = bool(fs) and (node in fs or node in self.reachable(fs, blocked=[t], include_starts=True))
+      # t must be unavoidable on the way to node from the loop header / entry
+      starts = [self.entry]
+      if node in self.reachable(starts, blocked=[t], include_starts=True):
+        # reachable bypassing t: t does not control node ... unless both are in a loop whose
+        # header is the bypass; restrict to the innermost common loop
+        loop = None
+        for l in reversed(t.loops):
+          if l in node.loops:
+            loop = l
+            break
+        if loop is None:
+          continue
+        header = self.by_ast.get(id(loop)) or self.by_ast.get(id(getattr(loop, 'test', None)))
+        if header is None:
+          continue
+        hs = [m for m, lab in header.succs if lab == 'T']
+        if node in self.reachable(hs, blocked=[t, header], include_starts=True):
+          continue
+      if via_t and not via_f:
+        out.extend(_split(t.ast, True))
+      elif via_f and not via_t:
+        out.extend(_split(t.ast, False))
+    return out
+
   def stats(self) -> Tuple[int, int]:
     return len(self.nodes), sum(len(n.succs) for n in self.nodes)
+
+
+def _split(e: ast.AST, pol: bool) -> List[Tuple[ast.AST, bool]]:
+  if isinstance(e, ast.UnaryOp) and isinstance(e.op, ast.Not):
+    return _split(e.operand, not pol)
+  if isinstance(e, ast.BoolOp):
+    if (isinstance(e.op, ast.And) and pol) or (isinstance(e.op, ast.Or) and not pol):
+      out = []
+      for v in e.values:
+        out.extend(_split(v, pol))
+      return out
+  return [(e, pol)]
 
 
 def _contains(root: ast.AST, target: ast.AST) -> bool:
